@@ -343,3 +343,40 @@
 ;=> ((x 1 2) (y 3 4))
 (nested-two-levels)
 ;=> ()
+===
+(define-syntax kind-of-datum
+  (syntax-rules ()
+    ((_ 1 a) (one a))
+    ((_ "s" a) (str a))
+    ((_ #t a) (true a))
+    ((_ #\c a) (chr a))
+    ((_ () a) (nil a))
+    ((_ b a) (other a))))
+(kind-of-datum 1 x)
+;=> (one x)
+(kind-of-datum "s" x)
+;=> (str x)
+(kind-of-datum #t x)
+;=> (true x)
+(kind-of-datum #\c x)
+;=> (chr x)
+(kind-of-datum () x)
+;=> (nil x)
+(kind-of-datum s x)
+;=> (other x)
+(kind-of-datum "1" x)
+;=> (other x)
+(kind-of-datum "#t" x)
+;=> (other x)
+(kind-of-datum "()" x)
+;=> (other x)
+(kind-of-datum c x)
+;=> (other x)
+(kind-of-datum "c" x)
+;=> (other x)
+(kind-of-datum #\s x)
+;=> (other x)
+(kind-of-datum #\1 x)
+;=> (other x)
+(kind-of-datum (1) x)
+;=> (other x)
